@@ -371,13 +371,21 @@ def _make_default(jd):
     return ext
 
 
-def _recorder(text, sink):
+def _recorder(text, sink, filekind="io"):
+    """filekind: "io" (behaves like the io classes), "none_write" (write() returns None, as codecs.StreamWriter, Twisted's
+    LogFile and many hand-written wrappers do), "mode_lies" (a text-only file whose .mode says "wb", as the streams of
+    codecs.open(path, "w", encoding=...) do; a bytes-only file whose .mode has no "b")"""
     import io
     base = io.StringIO if text else io.BytesIO
 
     class Rec(base):
+        if filekind == "mode_lies":
+            mode = "wb" if text else "w+"
+
         def write(self, data):
             n = base.write(self, data)          # a text file raises TypeError on bytes (the mode probe)
+            if filekind == "none_write":
+                n = None
             if isinstance(data, str):
                 sink(["w", "t", data])
             elif isinstance(data, (bytes, bytearray, memoryview)):
@@ -425,7 +433,7 @@ def _one_run(case, text):
         if not done[0]:          # the recorder's own finalisation (IOBase.__del__ -> close) is not the library's doing
             (probe if cur[0] is None else cur[0]["events"]).append(ev)
 
-    rec = _recorder(text, sink)
+    rec = _recorder(text, sink, case.get("filekind", "io"))
     dests = _output.Destinations()           # pristine global output state
     _output.Logger._destinations = dests
     kw = {}
@@ -897,12 +905,13 @@ def gen_encode(rng, tier):
                 m[1][:] = [[k, v] for k, v in m[1] if k[0] == "s" and k[1] != [ord(c) for c in "__eliot_logger__"]]
         if kind != "direct" and rng.random() < 0.4:
             case["globals"] = ["o", [[k, v] for k, v in g_obj(rng, 1, {}, rng.choice([1, 2]))[1] if k[0] == "s"]]
+        case["filekind"] = rng.choice(["io", "io", "io", "none_write", "mode_lies"])
         cases.append(case)
     return cases
 
 
 def describe_encode(case):
-    tags = set([case["kind"]])
+    tags = set([case["kind"], "file:" + case.get("filekind", "io")])
     if case.get("globals"):
         tags.add("globals")
 
@@ -1074,7 +1083,7 @@ def gen_rich(rng, tier):
         for _ in range(rng.choice([1, 2, 3])):
             fields = [[_str_tag("f%d" % j), g_rich_value(rng, 2)] for j in range(rng.choice([1, 2, 3]))]
             msgs.append(["o", fields])
-        cases.append({"kind": kind, "jd": jd, "msgs": msgs})
+        cases.append({"kind": kind, "jd": jd, "msgs": msgs, "filekind": rng.choice(["io", "io", "io", "none_write", "mode_lies"])})
     return cases
 
 
